@@ -48,7 +48,13 @@ class TaskGenerator:
         self.stopped = False
 
         # Filter nodes and partition into subsets of size ``gran``.
-        filter_func = getattr(mutator, 'filter', lambda x: True)
+        def filter_func(node):
+            try:
+                return not hasattr(mutator, 'filter') or mutator.filter(node)
+            except Exception as e:
+                logging.info(f'{type(e)} in filter of {mutator}: {e}')
+                return False
+
         filtered = list(nodes.filter_nodes(exprs, filter_func, max_depth))
         self.num_filtered = len(filtered)
         self.gran = len(filtered) if gran is None else gran
@@ -72,11 +78,17 @@ class TaskGenerator:
             # Filter nodes in subset in order to ensure that the mutator still
             # applies after updating ``self.exprs`` via ``self.update``.
             subset = self.subsets[task_id]
-            subset = [n for n in subset if self.mutator.filter(n)]
-            if not subset:
-                continue
+            try:
+                subset = [n for n in subset if self.mutator.filter(n)]
+                if not subset:
+                    continue
 
-            simps = self.__get_substs(subset)
+                simps = self.__get_substs(subset)
+            except Exception as e:
+                # A failing mutator only costs its own candidates
+                logging.info(f'{type(e)} in application of '
+                             f'{self.mutator}: {e}')
+                continue
 
             if not simps:
                 continue
